@@ -178,7 +178,7 @@ def units_for(prop, tier, gdir):
         if cn not in uroute.REGISTERED:
             continue
         for u in uroute.units_for_container(cn, gen):
-            if tier == 'thorough' or u.short in uroute.QUICK or cn in uroute.QUICK_ALL:
+            if tier == 'thorough' or ((u.short in uroute.QUICK or cn in uroute.QUICK_ALL) and cn not in uroute.THOROUGH_ONLY):
                 u.spec = specs[cn]
                 units.append(u)
     units = list({u.id: u for u in units}.values())  # identical units (e.g. constructors) are planned once
